@@ -92,7 +92,8 @@ static void do_sim(vf_case *c) {
 	for (int i = 0; i < 3; i++) { g1_null(P[i]); g1_new(P[i]); g2_null(Q[i]); g2_new(Q[i]); int a = SA[(i + rot) % 6], b = SB[(i + 2 * rot) % 6];
 		if (mask & (1u << (2 * i))) { g1_set_infty(P[i]); mpz_set_ui(t, 0); } else { sc_bn(k, a); g1_mul_gen(P[i], k); mpz_set(t, SC[a]); }
 		if (mask & (2u << (2 * i))) { g2_set_infty(Q[i]); mpz_set_ui(t, 0); } else { sc_bn(k, b); g2_mul_gen(Q[i], k); mpz_mul(t, t, SC[b]); }
-		if (i < m) mpz_add(acc, acc, t); }
+		if (i < m) mpz_add(acc, acc, t);
+		if (((mask >> i) ^ (unsigned)rot ^ (unsigned)i) & 1) { if (!g1_is_infty(P[i])) { g1_add(P[i], P[i], P0); g1_sub(P[i], P[i], P0); } if (!g2_is_infty(Q[i])) { g2_add(Q[i], Q[i], Q0); g2_sub(Q[i], Q[i], Q0); } } }
 	VF_TRY(th, pc_map_sim(e, P, Q, (size_t)m)); if (th) { vf_fail(NULL, "pc_map_sim raised for %d pairs, identity mask %x", m, mask); return; }
 	if (m == 0) { transitions++; if (!gt_is_unity(e)) vf_fail(NULL, "pc_map_sim over no pairs is not 1"); } else { char w[96]; snprintf(w, sizeof w, "pc_map_sim over %d pairs, identity mask %x", m, mask); expect_pow(w, e, acc); }
 	for (int i = 0; i < 3; i++) { g1_free(P[i]); g2_free(Q[i]); } gt_free(e); mpz_clears(acc, t, NULL); bn_free(k);
@@ -129,7 +130,9 @@ static void do_alt(vf_case *c) {
 		for (int i = 0; i < 3; i++) { g1_null(P[i]); g1_new(P[i]); g2_null(Q[i]); g2_new(Q[i]); int a = SA[(i + rot) % 6], b = SB[(i + 2 * rot) % 6];
 			if (mask & (1u << (2 * i))) { g1_set_infty(P[i]); mpz_set_ui(t, 0); } else { sc_bn(k, a); g1_mul_gen(P[i], k); mpz_set(t, SC[a]); }
 			if (mask & (2u << (2 * i))) { g2_set_infty(Q[i]); mpz_set_ui(t, 0); } else { sc_bn(k, b); g2_mul_gen(Q[i], k); mpz_mul(t, t, SC[b]); }
-			if (i < m) mpz_add(acc, acc, t); }
+			if (i < m) mpz_add(acc, acc, t);
+			/* every second finite point is left un-normalised: (X + G) - G in projective coordinates */
+			if (((mask >> i) ^ (unsigned)rot ^ (unsigned)i) & 1) { if (!g1_is_infty(P[i])) { g1_add(P[i], P[i], P0); g1_sub(P[i], P[i], P0); } if (!g2_is_infty(Q[i])) { g2_add(Q[i], Q[i], Q0); g2_sub(Q[i], Q[i], Q0); } } }
 		VF_TRY(th, alt_sim(mp, e, P, Q, m)); snprintf(w, sizeof w, "%s multi-pairing over %d pairs, identity mask %x", mn, m, mask);
 		if (th) vf_fail(NULL, "%s raised", w); else if (m == 0) { transitions++; if (!gt_is_unity(e)) vf_fail(NULL, "%s is not 1", w); } else expect_alt(mp, w, e, acc);
 		for (int i = 0; i < 3; i++) { g1_free(P[i]); g2_free(Q[i]); } mpz_clears(acc, t, NULL);
